@@ -17,7 +17,7 @@ EXPLANATION = (
     "Decided: R28.1 enqueue's return expression equals try_push's result for both values (and try_push returns bool); R28.2 in "
     "Logger::operator() every path from the entry, and from each process_logline call, to the return passes a failed try_pop edge or "
     "the empty-string sentinel edge; each successful pop reaches release(); R28.3 stop(): request_stop ≺ enqueue(sentinel) ≺ join; "
-    "send(): enqueue only under is_loggable(level); `_sequence`/`_osequence` are written only in process_logline. NOT decided: "
+    "send(): enqueue only under is_loggable(level); `_sequence`/`_osequence` are written only in process_logline; R28.4 every line inserted into the log stream is flushed (endl/flush) before process_logline returns, or else the consumer flushes on every path from a written line to its return; R28.5 the second (outbound) counter is advanced only under the direction flag; R28.6 with `_stopping` false no return of the consumer thread is reachable (an accepted empty line is not a stop sentinel). NOT decided: "
     "producer interleavings, queue internals (C30).")
 
 L = 'FIX8::Logger::'
@@ -76,9 +76,28 @@ def run(ctx):
                   'after writing a line the consumer pops again before it may return',
                   'after writing a line the consumer loop can exit without looking at the queue again (accepted lines are dropped at stop)',
                   cfg.describe_path(p) if p else None)
-        atoms = q.controlling_atoms(op, c)
-        ctx.check(any(a == sent[0][1] and pol is False for a, pol in atoms), 'R28.2', L + 'operator()#sentinel.not-written', c.loc,
-                  'the stop sentinel itself is not written')
+        # the sentinel (empty text while stopping) is not written: process_logline unreachable from a successful pop under that valuation
+        def sentinel_val(v, w, lab):
+            if lab is None or not isinstance(lab[1], bool):
+                return True
+            cn = cfg.cond_node(lab[0])
+            if cn is None:
+                return True
+            a, pol = q.polar(cn, lab[1])
+            if a == sent[0][1]:
+                return pol is True
+            if any(x.k == 'MemberExpr' and x.decl and x.decl.get('n') == '_stopping' for x in a.walk()) and not any(
+                    x.is_call and x.callee is not None and x.callee.get('n') == 'try_pop' for x in a.walk()):
+                return pol is True
+            return True
+        starts = set()
+        for br in pops:
+            starts |= set(q.atom_edge(cfg, br, True))
+        reach_s = set()
+        for st0 in starts:
+            reach_s |= cfg.reach_from(st0, edge_ok=sentinel_val, avoid=[cfg.block_last[b] for (b, _a, _p) in pops]) | {st0}
+        ctx.check(cfg.vertex_of(c) not in reach_s, 'R28.2', L + 'operator()#sentinel.not-written', c.loc,
+                  'the stop sentinel itself (empty text while stopping) is not written')
     rel = q.verts(cfg, [c for c in op.calls() if c.callee is not None and c.callee.get('n') == 'release'])
     for br in pops:
         got = q.atom_edge(cfg, br, True)
@@ -121,5 +140,73 @@ def run(ctx):
                   'line sequence numbers are advanced only by the consumer (process_logline)',
                   '%s writes the line sequence counter outside the consumer' % fq)
     ctx.need(L + 'process_logline' in writers, 'no sequence counter update found in process_logline')
+    # ---------------- R28.4 "stopping returns only after all accepted lines are written": each line is flushed by the time the consumer can return
+    pl = prog.fn1(L + 'process_logline')
+    ctx.saw(pl)
+    pcfg = pl.cfg
+    def is_flush(n):
+        if n.is_call and n.callee is not None and n.callee.get('n') == 'flush':
+            return True
+        if n.is_call and n.r.get('op') == '<<' and any(x.k == 'DeclRefExpr' and x.decl and x.decl.get('n') == 'endl' for a in n.args for x in a.walk()):
+            return True
+        return False
+    gs = lambda n: any(x.is_call and x.callee is not None and x.callee.get('n') == 'get_stream' for x in n.walk())
+    writes = [n for n in pl.all_nodes() if n.is_call and n.r.get('op') == '<<' and gs(n) and pcfg.has_vertex(n) and
+              not (n.parent is not None and n.parent.is_call and n.parent.r.get('op') == '<<')]          # outermost stream insertions into the log stream
+    ctx.need(writes, 'process_logline: no insertion into get_stream() found')
+    fl_pl = {pcfg.vertex_of(n) for n in pl.all_nodes() if is_flush(n) and gs(n) and pcfg.has_vertex(n)}
+    unflushed = None
+    for w in writes:
+        wv = pcfg.vertex_of(w)
+        if wv in fl_pl or any(is_flush(x) for x in w.walk()):
+            continue
+        pth = q.escape_path(pcfg, [wv], fl_pl)
+        if pth is not None:
+            unflushed = (w, pth)
+            break
+    if unflushed is None:
+        ctx.ok('R28.4', L + 'process_logline#flushed', pl.loc, 'every line written to the stream is flushed (endl / flush()) before process_logline returns')
+    else:
+        # the writer does not flush itself: then the consumer must flush on every path from a written line to its return
+        fl_op = {cfg.vertex_of(n) for n in op.all_nodes() if is_flush(n) and cfg.has_vertex(n)}
+        worst = None
+        for c in procs:
+            pth = q.escape_path(cfg, [cfg.vertex_of(c)], fl_op)
+            if pth is not None:
+                worst = (c, pth)
+        ctx.check(worst is None, 'R28.4', L + 'process_logline#flushed', unflushed[0].loc,
+                  'lines are not flushed by the writer, but the consumer flushes on every path from a written line to its return',
+                  'a line is inserted into the stream at %s without endl/flush, and the consumer thread can return (stop sentinel popped) without flushing: stop() returns '
+                  'while the last lines are still in the stream buffer' % unflushed[0].loc, cfg.describe_path(worst[1]) if worst else None)
+    # ---------------- R28.5 one counter per logger unless the direction field is configured
+    for (w, m) in q.member_writes(pl, L + '_osequence'):
+        atoms = q.controlling_atoms(pl, w)
+        dirflag = any(pol is True and any(x.k == 'DeclRefExpr' and x.decl and x.decl.get('n') == 'direction' for x in a.walk()) and
+                      any(x.k == 'MemberExpr' and x.decl and x.decl.get('n') == '_flags' for x in a.walk()) for a, pol in atoms)
+        ctx.check(dirflag, 'R28.5', L + 'process_logline#second-counter-only-with-direction', w.loc,
+                  'the outbound counter is used only when the direction flag is set (otherwise all lines share one consecutive sequence)',
+                  'the second sequence counter is advanced at %s without testing the direction flag: a logger without the direction field numbers its lines from two '
+                  'interleaved counters' % w.loc)
+    # ---------------- R28.6 while stop has not been requested the consumer never returns (an accepted line - e.g. an empty one - cannot end the thread)
+    def not_stopping(v, w, lab):
+        if lab is None or not isinstance(lab[1], bool):
+            return True
+        c = cfg.cond_node(lab[0])
+        if c is None:
+            return True
+        a, pol = q.polar(c, lab[1])
+        if any(x.k == 'MemberExpr' and x.decl and x.decl.get('n') == '_stopping' for x in a.walk()) and not any(x.is_call and x.callee is not None and
+                x.callee.get('n') in ('try_pop', 'empty') for x in a.walk()):
+            return pol is False
+        return True
+    reach_ns = cfg.reach_from(cfg.entry, edge_ok=not_stopping) | {cfg.entry}
+    early = [n for (v, kind, n) in cfg.exits() if kind in ('return', 'falloff') and v in reach_ns]
+    ctx.check(not early, 'R28.6', L + 'operator()#no-exit-before-stop', op.loc,
+              'the consumer thread cannot return unless stop was requested',
+              'the consumer thread can return although stop was not requested: an accepted line with empty text is indistinguishable from the stop sentinel, ends the '
+              'thread, and every line accepted after it is never written')
+    ctx.floor('R28.6', 1)
+    ctx.floor('R28.4', 1)
+    ctx.floor('R28.5', 1)
     ctx.floor('R28.2', 4)
     ctx.floor('R28.3', 4)
